@@ -44,7 +44,7 @@ var imageVocab = []string{"nginx:1", "nginx:1.25", "redis", "postgres:16", "busy
 var stateVocab = []string{"running", "exited", "paused", "created"}
 var labelKeyVocab = []string{"com.docker.compose.service", "com.docker.compose.project", "app/tier", "zone-1", "tier", "weight", "1st", "maintainer", "org.opencontainers.image.title"}
 var labelValVocab = []string{"web", "db", "a", "ab", "b", "", "x y", "1", "2", "12", "tier", "front-end",
-	"line1\nline2", "q\"uote", "back\\slash", "ünï", "(x)", "a.b", "web"}
+	"line1\nline2", "q\"uote", "back\\slash", "ünï", "(x)", "a.b", "web", "cr\rinside", "crlf\r\n"}
 
 func hexID(r *Rng) string { return fmt.Sprintf("%012x", r.Uint64()&0xffffffffffff) }
 
@@ -204,6 +204,10 @@ func genMsg(r *Rng, s WorldSpec, ci, j int) []byte {
 			if r.Bool(0.06) {
 				// a rare value: not-a-number
 				return []byte(fmt.Sprintf("level=%s k=NaN tok=%s", level, token))
+			}
+			if r.Bool(0.05) {
+				// zero with a sign: equal as numbers, different as text
+				return []byte(fmt.Sprintf("level=%s k=%s tok=%s", level, []string{"-0.0", "0.0", "-0"}[r.Intn(3)], token))
 			}
 			return []byte(fmt.Sprintf("level=%s k=%d tok=%s text=\"hello world\"", level, k, token))
 		case 1:
